@@ -650,6 +650,19 @@ def rule_i(repo, chk):
             ok = bool(caught & {'Exception', 'BaseException', '*'}) or {'SyntaxError', 'ValueError'} <= caught
             chk.ob('C01.i', ok, c, '`%s` is guarded against SyntaxError and ValueError' % short(c, 40), 'handlers around it catch: %s' % sorted(caught))
     chk.floor('C01.i', n, 1, '(literal_eval call sites)')
+    # the same for any other conversion of the literal's TEXT inside safe_literal_eval (int()/float()/complex() raise ValueError, e.g. for
+    # more than 4300 digits, where literal_eval answers with a SyntaxError that the handler knows)
+    sl = repo.find('jedi.parser_utils', 'safe_literal_eval')
+    for c in calls_in(sl):
+        if isinstance(c.func, ast.Name) and c.func.id in ('int', 'float', 'complex', 'eval', 'bytes', 'bytearray') and c.args and 'value' in norm(c.args[0]):
+            st = repo.enclosing_stmt(c)
+            caught = set()
+            for t in enclosing_handlers(st, sl):
+                for h in t.handlers:
+                    caught |= handler_types(h)
+            ok = bool(caught & {'Exception', 'BaseException', '*', 'ValueError'})
+            chk.ob('C01.i', ok, c, 'the conversion `%s` of the literal\'s text is guarded against ValueError' % short(c, 40), 'handlers around it catch: %s' % sorted(caught),
+                   key='literal-conversion|%s' % norm(c))
     for c in repo.all_calls():
         if repo.resolve(c.func) == 'inspect.cleandoc' and c._mod.name == 'jedi.parser_utils':
             f = repo.enclosing_func(c)
